@@ -123,3 +123,25 @@ def kabsch_msd(A, Bm):
 def cdist_pairs(xyz, pairs):
     xyz = np.asarray(xyz, np.float64)
     return np.linalg.norm(xyz[pairs[:, 1]] - xyz[pairs[:, 0]], axis=-1)
+
+
+def min_image_batch(d, B, search=2):
+    """min_image for many frames at once: d (F,P,3) displacements, B (F,3,3) lattices (rows a,b,c).  Same algorithm as
+    min_image (per-frame reduced basis, rounding, (2*search+1)^3 images), vectorised over frames.  Returns (vmin, dmin)."""
+    d = np.asarray(d, dtype=np.float64)
+    Br = np.stack([reduce_basis(b) for b in np.asarray(B, dtype=np.float64)])
+    frac = np.einsum("fpi,fij->fpj", d, np.linalg.inv(Br))
+    base = d - np.einsum("fpi,fij->fpj", np.round(frac), Br)
+    best = base.copy()
+    bestd = np.einsum("fpi,fpi->fp", base, base)
+    rng_ = range(-search, search + 1)
+    for n in itertools.product(rng_, rng_, rng_):
+        if n == (0, 0, 0):
+            continue
+        cand = base + (np.array(n, dtype=np.float64) @ Br)[:, None, :]
+        cd = np.einsum("fpi,fpi->fp", cand, cand)
+        m = cd < bestd
+        if m.any():
+            best[m] = cand[m]
+            bestd[m] = cd[m]
+    return best, np.sqrt(bestd)
